@@ -10,6 +10,9 @@ with fixed offsets, pytz zones and stdlib zoneinfo zones, including both sides o
 Datetimes that carry a sub-millisecond part (microsecond not a multiple of 1000) have no "exact
 millisecond instant"; they are judged by the first half of the statement: the stored integer must
 be the one the core encoder (DateType.serialize) stores for the same datetime, on both sides of 1970.
+Timezone-aware datetimes (and aware datetime.time objects) are also input values of every other date/time-typed
+column (Date, Time) and of collections / tuples / UDT fields of Date, Time and DateTime: every tz case x days x
+wall-clock times on both sides of midnight at the distance of every UTC offset used.
 """
 import datetime
 import decimal
@@ -23,8 +26,8 @@ META = {
     'level': 'exploration',
     'engine': 'N',
     'technique': 'bounded-exhaustive enumeration of column classes x boundary values; differential against the core encoder and an exact-instant reference',
-    'text': 'For each of the 27 column specifications (every concrete cqlengine column class, collections with scalar, DateTime '
-            'and nested element types, a UDT) and every boundary value of the natural python type(s) of its CQL type, the bytes the '
+    'text': 'For each of the 40 column specifications (every concrete cqlengine column class, collections with scalar, Date, Time, DateTime '
+            'and nested element types, two UDTs) and every boundary value of the natural python type(s) of its CQL type, the bytes the '
             'core driver produces for col.to_database(v) under the column CQL type are compared with the bytes it produces for v '
             'itself (sets/maps compared as unordered after splitting the collection layout independently); scalar encodings are '
             'additionally cross-checked against an independent encoder.  DateTime: every millisecond 0..999 x sub-millisecond part '
@@ -32,7 +35,11 @@ META = {
             '(all 1000 in the thorough tier) x the same sub-millisecond parts for aware datetimes in 5 fixed offsets, 2 pytz zones and '
             '2 zoneinfo zones at 13 local moments (both sides of DST transitions, both sides of 1970 incl. moments that change side '
             'through the offset).  Whole-millisecond values are judged against exact integer arithmetic; values with a sub-millisecond '
-            'part against the integer the core encoder stores for the same datetime; every value is also converted after validate().',
+            'part against the integer the core encoder stores for the same datetime; every value is also converted after validate().  '
+            'Timezone-aware datetimes are input values of the Date column too (14 tz cases: fixed offsets +-, pytz, zoneinfo x 10 days incl. '
+            'DST changes and both sides of 1970 x 17 wall-clock times on both sides of midnight, at the distance of each UTC offset from '
+            'midnight), aware datetime.time objects of the Time column, and both (3 days) are elements of List/Set/Map/Tuple/UDT of '
+            'Date, Time and DateTime (singletons and whole per-day lists).',
     'note': 'Values a column\'s validate() rejects or the core encoder rejects are not "valid values" and are counted, not judged. '
             'The textual literal form of the value (Encoder) is C29\'s subject; here the typed encoding is compared.',
     'design_ref': 'C36',
@@ -65,6 +72,44 @@ def micros_of(v):
     return (v - _EPOCH_N) // _US
 
 
+# wall-clock times of day for aware datetimes given to date/time-typed columns: on both sides of midnight and at the distance of
+# every UTC offset used in tz_cases() from midnight (where the UTC calendar day and the wall-clock day part ways), plus midday
+NEAR_MIDNIGHT = [(0, 0, 0, 0), (0, 30, 0, 0), (1, 59, 59, 999999), (4, 0, 0, 0), (5, 29, 59, 0), (5, 30, 0, 0), (8, 0, 0, 0),
+                 (11, 59, 59, 999999), (12, 0, 0, 0), (14, 0, 0, 0), (15, 59, 59, 0), (16, 0, 0, 0), (18, 30, 0, 0), (19, 0, 0, 0),
+                 (21, 30, 0, 0), (22, 0, 0, 0), (23, 59, 59, 999999)]
+# days: both DST changes of the zones in tz_cases(), a summer day, both sides of 1970, a leap day, month/year ends
+AWARE_DAYS = [(2024, 3, 10), (2024, 3, 31), (2024, 7, 1), (2024, 11, 3), (2024, 10, 27), (1970, 1, 1), (1969, 12, 31), (2024, 2, 29),
+              (2023, 12, 31), (1900, 1, 1)]
+AWARE_DAYS_QUICK_COLLECTION = [(2024, 3, 10), (2024, 7, 1), (1970, 1, 1)]
+
+
+def aware_datetimes(days=None, tz_kinds=None):
+    """Timezone-aware datetimes: every tz case x day x wall-clock time near midnight (what cannot be built is left out)."""
+    out = []
+    for kind, label, mk in tz_cases():
+        if tz_kinds is not None and kind not in tz_kinds:
+            continue
+        for (y, mo, d) in (days or AWARE_DAYS):
+            for (h, mi, sec, us) in NEAR_MIDNIGHT:
+                try:
+                    v = mk(datetime.datetime(y, mo, d, h, mi, sec, us))
+                    v.utcoffset()
+                except (OverflowError, ValueError):
+                    continue
+                out.append(v)
+    return out
+
+
+def aware_times():
+    """datetime.time objects carrying a tzinfo (fixed offsets): the time-of-day is the wall-clock one."""
+    out = []
+    for mins in (0, 330, -480, 840, -720):
+        tz = datetime.timezone(datetime.timedelta(minutes=mins))
+        for (h, mi, sec, us) in NEAR_MIDNIGHT:
+            out.append(datetime.time(h, mi, sec, us, tzinfo=tz))
+    return out
+
+
 def scalar_values():
     from cassandra import util
     return {
@@ -88,9 +133,10 @@ def scalar_values():
         'timeuuid': TU,
         'date': [datetime.date(1970, 1, 1), datetime.date(1969, 12, 31), datetime.date(1, 1, 1), datetime.date(9999, 12, 31),
                  datetime.date(2024, 2, 29), util.Date(0), util.Date(-1), util.Date(-(1 << 31)), util.Date((1 << 31) - 1),
-                 util.Date(2932897), datetime.datetime(2024, 2, 29, 23, 59, 59), '2024-02-29', '1969-12-31'],
+                 util.Date(2932897), datetime.datetime(2024, 2, 29, 23, 59, 59), datetime.datetime(1969, 12, 31, 23, 59, 59, 999999),
+                 datetime.datetime(1970, 1, 1, 0, 0, 0), '2024-02-29', '1969-12-31'] + aware_datetimes(),
         'time': [datetime.time(0, 0, 0), datetime.time(23, 59, 59, 999999), datetime.time(1, 2, 3, 4), util.Time(0),
-                 util.Time(86399999999999), util.Time(1), '12:34:56.789012345', '00:00:00'],
+                 util.Time(86399999999999), util.Time(1), '12:34:56.789012345', '00:00:00'] + aware_times(),
         'duration': [util.Duration(0, 0, 0), util.Duration(1, 2, 3), util.Duration(-1, -2, -3),
                      util.Duration(2147483647, 2147483647, 9223372036854775807),
                      util.Duration(-2147483648, -2147483648, -9223372036854775808)],
@@ -109,6 +155,18 @@ def column_specs():
         since = c.DateTime()
         tags = c.Set(c.Integer)
 
+    class stay(UserType):
+        day = c.Date()
+        at = c.Time()
+        seen = c.DateTime()
+        days = c.List(c.Date)
+
+    # aware datetimes / times as elements of collections, tuples and UDT fields of the date/time-typed columns
+    aw = aware_datetimes(days=AWARE_DAYS_QUICK_COLLECTION)
+    aw_fixed = aware_datetimes(days=AWARE_DAYS_QUICK_COLLECTION, tz_kinds=('aware-fixed',))
+    at = aware_times()
+    n = len(NEAR_MIDNIGHT)
+    chunks = [aw[i:i + n] for i in range(0, len(aw), n)]           # one tz case x one day per chunk
     specs = [
         ('Text', lambda: c.Text(), sv['text'], 'text'),
         ('Ascii', lambda: c.Ascii(), sv['ascii'], 'ascii'),
@@ -143,6 +201,19 @@ def column_specs():
         ('List<Tuple>', lambda: c.List(c.Tuple(c.Integer, c.Time)), [[(1, datetime.time(1, 2, 3)), (2, None)]], None),
         ('UserDefinedType', lambda: c.UserDefinedType(addr),
          [addr(street='x', zipcode=1, since=DT1, tags={2, 1}), addr(), addr(street='', zipcode=-1, since=DT0, tags=set())], None),
+        ('List<Date>', lambda: c.List(c.Date), [[v] for v in aw] + chunks + [[datetime.date(2024, 2, 29), DT1, '1969-12-31']], None),
+        ('Set<Date>', lambda: c.Set(c.Date), [{v} for v in aw_fixed] + [{datetime.date(1, 1, 1), datetime.date(9999, 12, 31)}], None),
+        ('Map<Date,Date>', lambda: c.Map(c.Date, c.Date),
+         [{v: datetime.date(1970, 1, 1)} for v in aw_fixed] + [{datetime.date(1970, 1, 1): v} for v in aw_fixed], None),
+        ('Map<Text,List<Date>>', lambda: c.Map(c.Text, c.List(c.Date)), [{'k': ch, '': []} for ch in chunks], None),
+        ('List<Time>', lambda: c.List(c.Time), [[t] for t in at] + [at], None),
+        ('List<DateTime>/aware', lambda: c.List(c.DateTime), [[v.replace(microsecond=0)] for v in aw], None),
+        ('Set<DateTime>/aware', lambda: c.Set(c.DateTime), [{v.replace(microsecond=0)} for v in aw_fixed], None),
+        ('Tuple<Date,Time,DateTime>', lambda: c.Tuple(c.Date, c.Time, c.DateTime),
+         [(v, datetime.time(v.hour, v.minute, v.second, v.microsecond, tzinfo=v.tzinfo), v.replace(microsecond=0)) for v in aw_fixed], None),
+        ('UserDefinedType<Date>', lambda: c.UserDefinedType(stay),
+         [stay(day=v, at=datetime.time(v.hour, v.minute, v.second, v.microsecond, tzinfo=v.tzinfo), seen=v.replace(microsecond=0), days=[v, v])
+          for v in aw_fixed] + [stay()], None),
     ]
     return specs
 
@@ -218,6 +289,8 @@ def run_spec(idx):
     for v in values:
         case = {'column': name, 'value': repr(v)[:200], 'spec': idx}
         vclass = type(v).__name__
+        if isinstance(v, (datetime.datetime, datetime.time)) and v.utcoffset() is not None:
+            vclass += '-aware'
         try:
             vv = col.validate(v)
         except Exception as e:
@@ -428,13 +501,17 @@ def run(ctx):
 
     for part in ctx.pmap(_job, [(j, ms_all, ms_aware) for j in jobs]):
         ctx.merge(part)
-    ctx.cov['rule'] = ('column specs: %s; each with the listed boundary values of its natural python types; DateTime naive: %d epochs x 2 times of '
+    ctx.cov['rule'] = ('column specs: %s; each with the listed boundary values of its natural python types (Date: + %d '
+                       'aware datetimes = tz cases x %d days x %d wall-clock times near midnight; '
+                       'Time: + %d aware times; collections/tuple/UDT of Date/Time/DateTime: the same family on '
+                       '%d days); DateTime naive: %d epochs x 2 times of '
                        'day x ms 0..999 x %d sub-millisecond parts %r us; DateTime aware: %d tz cases x %d local moments x %d ms values x the same '
                        'sub-millisecond parts; an evaluation = one value accepted by both '
                        'validate() and the core encoder; non-trivial = to_database() returned a converted object (not the input itself), or an exact '
                        'DateTime instant with a non-zero millisecond part, or a DateTime with a sub-millisecond part before 1970 (where flooring and '
                        'truncating toward zero differ) stored as the core encoder stores it'
-                       % (', '.join(names), len(EPOCHS), len(SUBMS), SUBMS, len(tz_cases()), len(AWARE_MOMENTS), len(ms_aware)))
+                       % (', '.join(names), len(aware_datetimes()), len(AWARE_DAYS), len(NEAR_MIDNIGHT), len(aware_times()),
+                          len(AWARE_DAYS_QUICK_COLLECTION), len(EPOCHS), len(SUBMS), SUBMS, len(tz_cases()), len(AWARE_MOMENTS), len(ms_aware)))
     ctx.cov['exhaustive'] = True
     ctx.assume('a naive datetime means UTC (cqlengine documentation and the core encoder agree); a datetime.date in a DateTime column means midnight UTC')
     ctx.assume('a datetime with a sub-millisecond part has no exact millisecond instant: it is judged only against the integer the core encoder '
@@ -444,6 +521,8 @@ def run(ctx):
     ctx.assume('DateTime.truncate_microseconds keeps its default (False)')
     ctx.assume('values outside the natural python type of a column (float or str in a Decimal column, str in an Integer column, int day counts '
                'in a Date column, whose meaning differs between cqlengine (days since 1970) and the core encoder (raw unsigned value)) are left out')
+    ctx.assume('for a Date column the reference is the core SimpleDateType encoder on the same python value: the calendar day an aware datetime shows '
+               '(its wall-clock fields); for a Time column the wall-clock time of day of an aware datetime.time')
     ctx.assume('DateTime elements inside collections/tuples/UDTs use whole-second values so that the DateTime conversion is judged once, by the DateTime cases')
     ctx.assume('set and map element order is not part of the CQL value (Cassandra sorts on write)')
 
